@@ -31,8 +31,12 @@ RmAuth(S, c, e) ==
   IsReq(e) /\ Has(c, "remember") /\ S.sess[e.b].uid = NONE /\ S.cookie[e.b] >= 1
   /\ S.cookie[e.b] \in RmIds(S) /\ <<"rm", S.cookie[e.b]>> \notin S.spent
 
+\* the session identity of this step was set by the remember middleware only
+ByPrelude(S, S2, c, e) ==
+  RmAuth(S, c, e) /\ S2.sess[e.b].uid = RmOwner(S, S.cookie[e.b]) /\ S2.sess[e.b].half
+
 RcOk(S, u, e) == e.rc >= 1 /\ e.g = S.db[u].rcg /\ e.rc \in S.db[u].rcLeft /\ <<"rc", e.g * 100 + e.rc>> \notin S.spent
-TotpCodeOk(S, u, e) == e.rc = 0 /\ e.code \in 1..3 /\ e.tok >= 1 /\ e.tok = S.db[u].totp
+TotpCodeOk(S, u, e) == e.rc = 0 /\ e.code \in {1, 3} /\ e.tok >= 1 /\ e.tok = S.db[u].totp
 SmsCodeOk(S, u, e, phone) == e.rc = 0 /\ e.code >= 1 /\ phone # 0 /\ e.code = S.sess[e.b].smsCode /\ <<e.code, phone>> \in S.scPhone
 
 -----------------------------------------------------------------------------
@@ -67,7 +71,7 @@ C01_V(S, S2, c, e) ==
 Has2FA(c, ur) == (Has(c, "totp") /\ ur.totp # 0) \/ (Has(c, "sms") /\ ur.sms # 0)
 
 C02_V(S, S2, c, e) ==
-  IF ~IsReq(e) \/ ~Changed(S, S2, e.b, "uid") \/ S2.sess[e.b].uid = NONE THEN {}
+  IF ~IsReq(e) \/ ~Changed(S, S2, e.b, "uid") \/ S2.sess[e.b].uid = NONE \/ ByPrelude(S, S2, c, e) THEN {}
   ELSE LET u == S2.sess[e.b].uid IN
        V("C02.primaryOnlyParks", e.act \in {"LoginPost", "OtpLoginPost", "RecoverEnd"} => ~Has2FA(c, S.db[u]))
        \cup V("C02.secondStepOwnFactor",
@@ -81,7 +85,7 @@ Blocked(c, ur, now) == (Has(c, "lock") /\ Locked(ur, now)) \/ (Has(c, "confirm")
 
 C03_V(S, S2, c, e, r) ==
   (IF IsReq(e) /\ e.act \in InteractiveLogins /\ Changed(S, S2, e.b, "uid") /\ S2.sess[e.b].uid # NONE
-        /\ ~RmAuth(S, c, e)
+        /\ ~ByPrelude(S, S2, c, e)
    THEN LET u == S2.sess[e.b].uid IN
         V("C03.noLoginWhileBlocked", S.db[u].ex => ~Blocked(c, S.db[u], S.now))
    ELSE {})
@@ -230,19 +234,19 @@ C10_V(S, S2, c, e) ==
 
 C12_V(S, S2, c, e) ==
   V("C12.atMostFive", \A u \in Pids : Cardinality(S2.db[u].otps) <= 5)
-  \cup (IF e.act = "OtpLoginPost" /\ LoggedInAs(S, S2, e, e.pid) /\ ~RmAuth(S, c, e)
+  \cup (IF e.act = "OtpLoginPost" /\ LoggedInAs(S, S2, e, e.pid) /\ ~ByPrelude(S, S2, c, e)
         THEN V("C12.otpOnce", e.tok \notin S2.db[e.pid].otps /\ <<"otp", e.tok>> \notin S.spent
                               /\ e.tok \in S.db[e.pid].otps)
         ELSE {})
   \cup (IF e.act \in {"TotpValidate", "SmsValidate"} /\ e.rc # 0 /\ IsReq(e)
-           /\ Changed(S, S2, e.b, "uid") /\ S2.sess[e.b].uid # NONE /\ ~RmAuth(S, c, e)
+           /\ Changed(S, S2, e.b, "uid") /\ S2.sess[e.b].uid # NONE /\ ~ByPrelude(S, S2, c, e)
         THEN LET u == S2.sess[e.b].uid IN
              V("C12.rcOnce", RcOk(S, u, e) /\ e.rc \notin S2.db[u].rcLeft)
         ELSE {})
-  \cup (IF e.act = "SmsValidate" /\ IsReq(e) /\ Changed(S, S2, e.b, "uid") /\ S2.sess[e.b].uid # NONE /\ ~RmAuth(S, c, e)
+  \cup (IF e.act = "SmsValidate" /\ IsReq(e) /\ Changed(S, S2, e.b, "uid") /\ S2.sess[e.b].uid # NONE /\ ~ByPrelude(S, S2, c, e)
         THEN V("C12.smsOnce", S2.sess[e.b].smsCode = 0) ELSE {})
   \cup (IF e.act = "TotpValidate" /\ c.totpOneTime /\ e.rc = 0 /\ IsReq(e)
-           /\ Changed(S, S2, e.b, "uid") /\ S2.sess[e.b].uid # NONE /\ ~RmAuth(S, c, e)
+           /\ Changed(S, S2, e.b, "uid") /\ S2.sess[e.b].uid # NONE /\ ~ByPrelude(S, S2, c, e)
         THEN V("C12.totpNoImmediateReplay", TotpEnc(e) # S.db[S2.sess[e.b].uid].totpLast) ELSE {})
 
 -----------------------------------------------------------------------------
@@ -259,7 +263,7 @@ C13_V(S, S2, c, e) ==
         \cup V("C13.enableNeedsProof",
                \A u \in ch :
                  (S2.db[u].totp # S.db[u].totp /\ S2.db[u].totp # 0
-                    => e.act = "TotpConfirm" /\ S.sess[b].totpSetup = S2.db[u].totp /\ e.tok = S2.db[u].totp /\ e.code \in 1..3)
+                    => e.act = "TotpConfirm" /\ S.sess[b].totpSetup = S2.db[u].totp /\ e.tok = S2.db[u].totp /\ e.code \in {1, 3})
                  /\ (S2.db[u].sms # S.db[u].sms /\ S2.db[u].sms # 0
                     => e.act = "SmsConfirm" /\ S.sess[b].smsNum = S2.db[u].sms /\ SmsCodeOk(S, u, e, S2.db[u].sms)))
         \cup V("C13.disableNeedsProof",
@@ -286,13 +290,13 @@ C14_V(S, S2, c, e, r) ==
            matched == S.sess[b].oState # 0 /\ e.tok >= 1 /\ e.tok = S.sess[b].oState /\ <<"os", e.tok>> \notin S.spent
            dbSame == \A u \in Pids : S2.db[u].ex = S.db[u].ex
        IN
-       V("C14.needsOwnState", (Changed(S, S2, b, "uid") /\ ~RmAuth(S, c, e)) \/ ~dbSame => matched /\ e.outcome \in {"x", "y"})
+       V("C14.needsOwnState", ~UidSameModuloMW(S, S2, c, e) \/ ~dbSame => matched /\ e.outcome \in {"x", "y"})
        \cup (IF matched /\ Flushed(r)
              THEN V("C14.stateSpent", S2.sess[b].oState = 0 /\ ~S2.sess[b].oHas) ELSE {})
-       \cup (IF Changed(S, S2, b, "uid") /\ S2.sess[b].uid # NONE /\ ~RmAuth(S, c, e)
+       \cup (IF ~UidSameModuloMW(S, S2, c, e) /\ S2.sess[b].uid # NONE
              THEN V("C14.bindsIdentity", S2.sess[b].uid = OPid(e.prov, e.outcome)) ELSE {})
        \cup (IF e.outcome \notin {"x", "y"}
-             THEN V("C14.errorLogsNobodyIn", (~Changed(S, S2, b, "uid") \/ RmAuth(S, c, e)) /\ dbSame) ELSE {})
+             THEN V("C14.errorLogsNobodyIn", UidSameModuloMW(S, S2, c, e) /\ dbSame) ELSE {})
 
 -----------------------------------------------------------------------------
 (* C19 - registration creates exactly one account, never overwrites *)
